@@ -84,6 +84,25 @@ CHECKS = {
         technique="Lean 4 proof over hand-written model + correspondence + scipy oracle call prescribed by the model",
         design="6/C15",
     ),
+    "C16": dict(
+        text=("Model/Format.lean: format_num on exact rationals (half-even decimal rounding, binary64 rounding and "
+              "floor(log10) as FloatLib parameters), get_and_format_num, and the views to_pretty_dicts / to_string / to_html "
+              "as functions of to_dicts(). Theorems: |round_half_even(q,p) - q| <= 1/2 * 10^-p; a value strictly within half "
+              "a unit of a grid point rounds to it (no double rounding); sig_error: with e the code's floor(log10|v|) the "
+              "rounded value is within 1/2 * 10^(1-s) * |v| (times 1+delta for a log10 that is off by delta) in both the "
+              "fixed and the exponential branch; the exponential carry keeps the value; None/NaN/inf as documented; '%' "
+              "suffix; the views have one row per to_dicts() row in order, cells right-aligned to the column width "
+              "(rjust_spec, rjust_colWidth, joinSep_length), unescape(escape s) = s and no '<' '>' survives escaping. Tie: "
+              "string-for-string correspondence of the model with the real functions on boundary and random inputs (log10 "
+              "results recorded from the real run), all five result classes; search: the real text parsed back against the "
+              "number, views against to_dicts, html parsed with html.parser, dataframe conversions row-wise."),
+        note=NOTE_COMMON + "CPython's round()/format() are modelled as exact half-even roundings of the binary value; the "
+             "link text <-> denoted value (parse back) is checked by the harness, the theorems speak about the value; "
+             "fixed_digits_value has the closeness of the intermediate float as a hypothesis (binary64, s <= 15). Locale "
+             "lookup is outside the model (C locale asserted). Known finding K4 (pct overflow renders 'inf%').",
+        technique="Lean 4 proof over hand-written model + string-for-string correspondence + parse-back search",
+        design="6/C16",
+    ),
     "C14": dict(
         text=("Theorems over the Lean definitions regenerated from aggr.py on every run: aggrOf(s1++s2) = aggrOf s1 + "
               "aggrOf s2 for all sample sizes >= 2 in any ordered field, commutativity, associativity, ratio_var/"
